@@ -10,6 +10,17 @@ for f in sorted(glob.glob('/verif/evidence/C*.json')):
     rows.append(f"| {pid} | {', '.join(i.replace('Model.', '') for i in imports)} | {c['obligations']} | {partial} | "
                 f"{c['evaluations']} / {c['distinct_nontrivial']} | {round(e['wall_s'])} s | {', '.join(axioms) or 'closed'} | "
                 f"{', '.join(c.get('known_findings_seen', {}).keys()) or '—'} |")
-print("| property | model files | theorems | `_partial` notes | cases / non-trivial (quick) | quick wall | axioms (Print Assumptions) | open findings seen |")
-print("|---|---|---|---|---|---|---|---|")
-print("\n".join(rows))
+out = []
+out.append("| property | model files | theorems | `_partial` notes | cases / non-trivial (quick) | quick wall | axioms (Print Assumptions) | open findings seen |")
+out.append("|---|---|---|---|---|---|---|---|")
+out += rows
+import sys
+text = "\n".join(out)
+if "--write" in sys.argv:
+    d = open("/verif/DESIGN.md").read()
+    a, b = "<!-- PER-PROPERTY-TABLE-BEGIN -->", "<!-- PER-PROPERTY-TABLE-END -->"
+    i, j = d.index(a) + len(a), d.index(b)
+    open("/verif/DESIGN.md", "w").write(d[:i] + "\n" + text + "\n" + d[j:])
+    print("DESIGN.md table written")
+else:
+    print(text)
